@@ -1,7 +1,8 @@
 #!/usr/bin/env python3
 """Store the confirmed agent-written changes under /verif/seeded/<id>-<k>/ (patch.diff rebased onto /repo HEAD where needed)."""
 import json, os, shutil, subprocess, sys
-RAW = "/var/tmp/seeded-raw"
+RAW = os.environ.get("RAW", "/var/tmp/seeded-raw")
+KOFF = int(os.environ.get("KOFF", "0"))  # round 2 is stored as <id>-3 / <id>-4
 OUT = "/verif/seeded"
 conf = {}
 for l in open("/var/tmp/seeded-confirm.tsv"):
@@ -10,7 +11,7 @@ for l in open("/var/tmp/seeded-confirm.tsv"):
         conf[(p[0], p[1])] = dict(x.split("=") for x in p[2:])
 head = subprocess.check_output(["git", "-C", "/repo", "rev-parse", "--short", "HEAD"]).decode().strip()
 for (pid, k), c in sorted(conf.items()):
-    d = os.path.join(OUT, f"{pid}-{k}")
+    d = os.path.join(OUT, f"{pid}-{int(k) + KOFF}")
     os.makedirs(d, exist_ok=True)
     src = os.path.join(RAW, pid)
     patch = open(os.path.join(src, f"patch{k}.diff")).read()
@@ -32,7 +33,7 @@ for (pid, k), c in sorted(conf.items()):
         "property": pid,
         "author": "independent sub-agent given only the property text and a scratch worktree",
         "needs_to_manifest": open(os.path.join(src, f"notes{k}.md")).read()[:1500],
-        "confirmed_by_me": {"base_commit": "3b2bcff", "demo_on_clean_tree_exit": int(c["clean_demo"]), "suite_with_change_exit": int(c["suite"]),
+        "confirmed_by_me": {"base_commit": head, "demo_on_clean_tree_exit": int(c["clean_demo"]), "suite_with_change_exit": int(c["suite"]),
                             "demo_with_change_exit": int(c["mut_demo"]), "how": "tools/confirm_seeded.sh in a scratch worktree under /var/tmp (removed afterwards)"},
         "applies_to_repo_head": {"commit": head, "ok": applies},
     }
